@@ -263,6 +263,17 @@ func c14sites(c *Ctx) {
 			}
 		}
 	}
+	if c.X("firstwrap", "") == "1" {
+		// the FIRST record that reaches any log/slog handler of this process is not issued by a log/slog.Logger method:
+		// it comes from a helper written after the "Wrapping" example of the log/slog documentation (its own
+		// runtime.Callers, NewRecord, Handler().Handle). What the first record of a process looked like is no input
+		// of the attribution of the later ones.
+		quiet := slog.New("first-record").Root()
+		quiet.SetWriter(io.Discard).SetErrorWriter(io.Discard).SetLevel(slog.AlwaysLevel)
+		h := slog.NewSlogHandler(quiet, &slog.HandlerOptions{NoColor: true, JSON: true, Level: slog.DebugLevel})
+		c14wrapInfo(h, "the first record of the process, from a wrapping helper")
+		c.R.Add("processes_whose_first_handler_record_came_from_a_wrapping_helper", 1)
+	}
 	c.R.Max("matrix_size", int64(len(cells)))
 	if c.To > len(cells) {
 		c.To = len(cells)
@@ -355,6 +366,18 @@ func c14sites(c *Ctx) {
 				stdslog.SetDefault(sl)
 			}
 		case "bridge":
+			if idx%3 == 1 && !c.Testing {
+				// the same logger is ALSO behind a second bridge, built on an application type that decorates it, whose
+				// severity is Panic: one line through that bridge terminates by panic (production process), the application
+				// recovers - no business of the records that follow
+				slog.RemoveFlags(slog.LnoInterrupt)
+				func() {
+					defer func() { _ = recover() }()
+					slog.NewLogLogger(c15decorated{target}, slog.PanicLevel).Print("a bridged line at the Panic severity (recovered)")
+				}()
+				slog.AddFlags(slog.LnoInterrupt)
+				c.R.Add("bridge_cells_after_a_recovered_panic_through_a_second_bridge_on_a_decorated_logger", 1)
+			}
 			target.SetLevel(slog.InfoLevel)
 			bl = slog.NewLogLogger(target, slog.InfoLevel) // bridge severity == logger level
 		}
